@@ -1,0 +1,17 @@
+//go:build verif
+
+package perms
+
+// Contracts for the deductive verifier in /verif (govc). Comments only; build tag "verif".
+//
+// C19: the claims of an API token are a wire format shared with every token already issued (the signing
+// key persists in the keystore) and with the tools that mint tokens: the permission list and, above
+// all, the expiry are read from exactly these JSON keys. A renamed key would still let old tokens
+// authenticate (encoding/json matches "Allow" case-insensitively) while silently dropping their expiry.
+//@ wirenames JWTPayload
+//@   property C19
+//@   closed
+//@   require Allow Allow
+//@   require Nonce Nonce
+//@   require ExpiresAt ExpiresAt
+//@ end
